@@ -885,7 +885,13 @@ func c13Detail(ops []c13Op, extra map[string]any) map[string]any {
 
 func c13Overlap(a, b *c13Op) bool { return a.Call < b.Ret && b.Call < a.Ret }
 
-func c13Judge(c *vfCase, ops []c13Op) {
+func c13Judge(c *vfCase, ops []c13Op) (clean bool) {
+	nviol := 0
+	violation := func(sig, summary string, detail any) {
+		nviol++
+		c.Violation(sig, summary, detail)
+	}
+	defer func() { clean = nviol == 0 }()
 	if len(ops) > c13MaxOps+8 {
 		c.Inconclusive(fmt.Sprintf("history has %d operations", len(ops)))
 	}
@@ -904,7 +910,7 @@ func c13Judge(c *vfCase, ops []c13Op) {
 			c.Count("never-answer-frames-for-an-address-answered-at-that-moment")
 		}
 		if op.Answered {
-			c.Violation("answered:"+c13BadClass(op.Variant),
+			violation("answered:"+c13BadClass(op.Variant),
 				fmt.Sprintf("frame variant %q for %s on %s was answered (drop reason %d)", op.Variant, c13IPStr[op.IP], c13IntfName[op.Intf], op.Reason),
 				c13Detail(ops, map[string]any{"op": op.ID}))
 		}
@@ -920,7 +926,7 @@ func c13Judge(c *vfCase, ops []c13Op) {
 				c.Eval()
 				c.Count("reply-frames-decoded")
 				if op.ReplyBad != "" || op.NFrames != 1 {
-					c.Violation("reply:not-an-answer-for-the-requested-address",
+					violation("reply:not-an-answer-for-the-requested-address",
 						fmt.Sprintf("request for %s on %s: %d reply frame(s), %s", c13IPStr[op.IP], c13IntfName[op.Intf], op.NFrames, op.ReplyBad),
 						c13Detail(ops, map[string]any{"op": op.ID}))
 				}
@@ -938,14 +944,14 @@ func c13Judge(c *vfCase, ops []c13Op) {
 			c.Eval()
 			c.Count("gratuitous-after-last-withdraw")
 			if op.Mask != 0 {
-				c.Violation("grat:frames-after-last-withdraw",
+				violation("grat:frames-after-last-withdraw",
 					fmt.Sprintf("all services deleted, gratuitous(%s, all interfaces) still emitted %d frame(s) on %s", c13IPStr[op.IP], op.NFrames, c13ScopeString(op.Mask)),
 					c13Detail(ops, map[string]any{"op": op.ID}))
 			}
 		case "req", "ask":
 			c.Eval()
 			if op.Answered {
-				c.Violation("answered:after-last-withdraw",
+				violation("answered:after-last-withdraw",
 					fmt.Sprintf("all services deleted, request for %s on %s still answered", c13IPStr[op.IP], c13IntfName[op.Intf]),
 					c13Detail(ops, map[string]any{"op": op.ID}))
 			}
@@ -960,7 +966,7 @@ func c13Judge(c *vfCase, ops []c13Op) {
 		c.Eval()
 		c.Count("quiescent-refcount-checks")
 		if op.SnapBad != "" {
-			c.Violation("state:unexpected-entry", op.SnapBad, c13Detail(ops, map[string]any{"op": op.ID}))
+			violation("state:unexpected-entry", op.SnapBad, c13Detail(ops, map[string]any{"op": op.ID}))
 		}
 		keys := map[string]bool{}
 		for k := range op.Refcnt {
@@ -976,10 +982,10 @@ func c13Judge(c *vfCase, ops []c13Op) {
 				shared = true
 			}
 			if rc < h {
-				c.Violation("refcnt:below-holders", fmt.Sprintf("%s phase: ipRefcnt[%s]=%d but %d service(s) hold it (%s)", op.Phase, k, rc, h, c13StateString(op.Snap)),
+				violation("refcnt:below-holders", fmt.Sprintf("%s phase: ipRefcnt[%s]=%d but %d service(s) hold it (%s)", op.Phase, k, rc, h, c13StateString(op.Snap)),
 					c13Detail(ops, map[string]any{"op": op.ID}))
 			} else if rc > h {
-				c.Violation("refcnt:above-holders", fmt.Sprintf("%s phase: ipRefcnt[%s]=%d but %d service(s) hold it (%s)", op.Phase, k, rc, h, c13StateString(op.Snap)),
+				violation("refcnt:above-holders", fmt.Sprintf("%s phase: ipRefcnt[%s]=%d but %d service(s) hold it (%s)", op.Phase, k, rc, h, c13StateString(op.Snap)),
 					c13Detail(ops, map[string]any{"op": op.ID}))
 			}
 		}
@@ -987,7 +993,7 @@ func c13Judge(c *vfCase, ops []c13Op) {
 			c.Count("quiescent-points-with-shared-address")
 		}
 		if op.Phase == "final" && op.Snap != nil && *op.Snap != (c13State{}) {
-			c.Violation("state:service-left-after-delete", "all services deleted but ips still holds "+c13StateString(op.Snap), c13Detail(ops, map[string]any{"op": op.ID}))
+			violation("state:service-left-after-delete", "all services deleted but ips still holds "+c13StateString(op.Snap), c13Detail(ops, map[string]any{"op": op.ID}))
 		}
 	}
 
@@ -1122,7 +1128,7 @@ func c13Judge(c *vfCase, ops []c13Op) {
 			continue
 		}
 		if lenient == porcupine.Ok {
-			c.Violation("grat:frames-differ-from-advertised-scope",
+			violation("grat:frames-differ-from-advertised-scope",
 				fmt.Sprintf("addresses %v: no linearization in which every gratuitous call for a held address emitted frames on exactly the responder interfaces its advertisement covers (history is linearizable once that clause is dropped)", names),
 				c13Detail(ops, extra))
 			continue
@@ -1135,10 +1141,15 @@ func c13Judge(c *vfCase, ops []c13Op) {
 				break
 			}
 		}
-		c.Violation("nonlinearizable:"+sig,
-			fmt.Sprintf("addresses %v: the recorded history (%d operations) has no linearization against the sequential model svc -> {ip -> scope}; removing the reads of class %q makes it linearizable", names, len(part), sig),
+		why := fmt.Sprintf("removing the reads of class %q makes it linearizable", sig)
+		if sig == "multiple-read-kinds" {
+			why = "no single class of reads explains it"
+		}
+		violation("nonlinearizable:"+sig,
+			fmt.Sprintf("addresses %v: the recorded history (%d operations) has no linearization against the sequential model svc -> {ip -> scope}; %s", names, len(part), why),
 			c13Detail(ops, extra))
 	}
+	return
 }
 
 // ---------------------------------------------------------------- entry point
@@ -1147,7 +1158,7 @@ func TestVerif_C13(t *testing.T) {
 	rule := "histories of <= 60 operations: 3 mutators (SetBalancer with changing interface scopes / DeleteBalancer over <= 4 services, 3 addresses, one shared) x 2 requesters " +
 		"(ARP frames through arpResponder.processRequest, shouldAnnounce asks for the IPv6 address, frames that must never be answered) x 1 spammer (gratuitous), then quiescent probes, " +
 		"withdraw of everything and probes again; non-trivial = history with >= 1 request overlapping a mutation of the address it asks for, distinct by the recorded order of calls and returns with outputs"
-	vfMain(t, "C13", vfSizes{Quick: 300, Thorough: 1500}, rule, func(c *vfCase) {
+	vfMain(t, "C13", vfSizes{Quick: 2000, Thorough: 10000}, rule, func(c *vfCase) {
 		if c.Replaying {
 			if ops, ok := c13LoadReplay(); ok {
 				c.Count("replayed-histories")
@@ -1165,7 +1176,7 @@ func TestVerif_C13(t *testing.T) {
 		if n := e.nbad.Load(); n != 0 {
 			c.Violation("grat:frame-for-another-address", fmt.Sprintf("%d broadcast frame(s) written during a gratuitous call name another address", n), c13Detail(ops, nil))
 		}
-		c13Judge(c, ops)
+		clean := c13Judge(c, ops)
 
 		// evidence
 		var key strings.Builder
@@ -1201,7 +1212,7 @@ func TestVerif_C13(t *testing.T) {
 		if contended {
 			c.Nontrivial(key.String())
 		}
-		if c.WantSample() && contended {
+		if c.WantSample() && contended && clean {
 			var lines []string
 			for i := range ops {
 				if ops[i].Phase == "concurrent" || ops[i].Phase == "prefix" {
